@@ -300,7 +300,7 @@ func TestVerif_C31(t *testing.T) {
 		}
 	}
 	// framing
-	sizes := []int{1, 2, 1 + rng.Intn(1<<16), 1 + rng.Intn(1<<22), max - 1, max, max + 1, max + 1 + rng.Intn(1<<20)}
+	sizes := []int{1, 2, 1 + rng.Intn(1<<16), 1 + rng.Intn(1<<22), max - 1, max, 1 + rng.Intn(1<<12), 3, 1 + rng.Intn(1<<16), max + 1, max + 1 + rng.Intn(1<<20)}
 	res, err := p2p.VerifFramingProbe(sizes, func(n int) []byte {
 		b := make([]byte, n)
 		for i := 0; i < n; i += 1 + n/4096 {
